@@ -1,6 +1,8 @@
 import SstModel.Lemmas.Faulty
 import SstModel.Lemmas.FaultyScan
 import SstModel.Lemmas.FaultySeek
+import SstModel.Lemmas.FaultyWitness
+import SstModel.Lemmas.FaultySession
 import SstModel.Props.ReaderWF
 /-
   C14 — Failures of the random-access source do not stick.
@@ -396,6 +398,157 @@ theorem C14_call_keeps_sim (hns : NoShortCollision t) (it : TableIter) (pos : Op
 
 end
 
+/-! ### non-vacuity (tests, labelled as such)
+
+  The concrete table: the model writer's image (`FT.witnessImg`, 182 bytes) for the three entries
+  `([1],[10]) ([2],[20]) ([3,5],[30])`, block size 0 (three data blocks), restart interval 2, no compression,
+  the "no filter" policy (which still writes a filter block, so `fv = some _`). Concrete runs are evaluated
+  by the kernel (`decide +kernel`, no extra axioms; the whole of Lemmas/FaultyWitness.lean checks in ≈ 12 s).
+  `noShortCollisionB` / `noShortCollisionMetaB` are Bool checkers on the bytes of an image, sound for every
+  well-formed `TableImg` with these bytes (`C14_noShortCollision_checker`); the harness can run them. -/
+
+/-- the Bool checkers for `NoShortCollision` / `NoShortCollisionMeta` are sound -/
+theorem C14_noShortCollision_checker (cmp : Cmp) (t : TableImg) (hwf : t.WF cmp) (p : FilterPolicy) :
+    (noShortCollisionB t.img = true → NoShortCollision t)
+      ∧ (noShortCollisionMetaB p t.img = true → NoShortCollisionMeta p t) :=
+  ⟨FT.noShortCollisionB_sound hwf, FT.noShortCollisionMetaB_sound hwf p⟩
+
+/-- C14 is not vacuous: ALL hypotheses of `C14_session` / `C14_scan` / `C14_seek_under_faults` /
+    `C14_open_right_or_error` hold simultaneously for a concrete table with three data blocks and a world
+    with a NON-EMPTY fault schedule — including `NoShortCollision t` and `NoShortCollisionMeta p t` -/
+theorem C14_nonvacuous :
+    ∃ (t : TableImg) (fv : Option Bytes) (tb : Table) (it : TableIter) (w : World),
+      defaultCmp.Lawful ∧ t.WF defaultCmp ∧ t.img = FT.witnessImg ∧ t.blocks.length = 3
+        ∧ t.entries = [([1], [10]), ([2], [20]), ([3, 5], [30])]
+        ∧ FilterView noFilterPolicy t fv ∧ (∃ fb, fv = some fb)
+        ∧ Opened tb t defaultCmp noFilterPolicy fv
+        ∧ (∀ fb, fv = some fb → FilterSound noFilterPolicy t fb)
+        ∧ (∀ fb, fv = some fb → FilterBlockReader.isWellFormed fb = true)
+        ∧ NoShortCollision t ∧ NoShortCollisionMeta noFilterPolicy t
+        ∧ FileOK w tb.file t.img ∧ Coherent w tb.cacheId t ∧ CacheValid w
+        ∧ w.sched = [Fault.none, Fault.ioError]
+        ∧ IterOK it ∧ it.table = tb ∧ SimT t tb it none := by
+  obtain ⟨t, fv, tb, it, w1, h⟩ := FT.witness_exists
+  obtain ⟨d0, d1, d2, hbl, _⟩ := h.blocks
+  obtain ⟨hf, hcoh, hcv, hs⟩ := h.world [Fault.none, Fault.ioError]
+  refine ⟨t, fv, tb, it, FT.armed w1 [Fault.none, Fault.ioError], defaultCmp_lawful, h.wf, h.img,
+    by rw [hbl]; rfl, h.entries, h.fview, ?_, h.opened, h.sound, h.fwf, h.noShort, h.noShortMeta,
+    hf, hcoh, hcv, hs, h.iterOK, h.itab, h.sim⟩
+  -- the policy's name is recorded in the metaindex with a non-empty handle: the filter block is seen
+  have hdec : BlockHandle.tryDecode [55, 9] = some (⟨55, 9⟩, 2) := by decide +kernel
+  cases hfv : h.fview with
+  | absent hno =>
+    exact absurd rfl (hno (Table.filterName noFilterPolicy, [55, 9]) (by rw [h.metaKVs]; simp))
+  | empty v fh n hm hd hz =>
+    rw [h.metaKVs] at hm
+    simp only [List.mem_singleton, Prod.mk.injEq, true_and] at hm
+    subst hm
+    rw [hdec] at hd
+    cases hd
+    cases hz
+  | present v fh n fb hm hd hz hb hr hw => exact ⟨fb, rfl⟩
+
+/-- C14 on that instance. With the schedule `[none, ioError]` (the read of the SECOND data block fails once):
+    the forward scan of a fresh iterator returns exactly the entries of the other two blocks, then `none`
+    (3 calls); the schedule is then exhausted and the next scan returns all three entries (`C14_recovers`);
+    `seek [2]` under `[ioError]` is invalid, repeated it stands on `([2],[20])`; the lookup of `[2]` under
+    `[ioError]` is `Err(IOError)`, repeated it is `[20]`; under a short read (`short 7`) it is `Corruption`. -/
+theorem C14_instance :
+    ∃ (t : TableImg) (fv : Option Bytes) (tb : Table) (it : TableIter) (w1 : World),
+      FT.WitnessOK t fv tb it w1
+        ∧ (∃ w' it', it.run (List.replicate 3 IterOp.next) (FT.armed w1 [Fault.none, Fault.ioError])
+            = (w', .ok (it', [.entry (some ([1], [10])), .entry (some ([3, 5], [30])), .entry none])))
+        ∧ (∃ w' it', it.run (List.replicate 7 IterOp.next) (FT.armed w1 [Fault.none, Fault.ioError])
+            = (w', .ok (it', [.entry (some ([1], [10])), .entry (some ([3, 5], [30])), .entry none,
+                .entry (some ([1], [10])), .entry (some ([2], [20])), .entry (some ([3, 5], [30])),
+                .entry none])))
+        ∧ (∃ w' it', it.run [.seek [2], .valid, .current, .seek [2], .valid, .current]
+              (FT.armed w1 [Fault.ioError])
+            = (w', .ok (it', [.unit, .flag false, .entry none, .unit, .flag true, .entry (some ([2], [20]))])))
+        ∧ (tb.get [2] (FT.armed w1 [Fault.ioError])).2 = .err .ioError
+        ∧ (tb.get [2] (tb.get [2] (FT.armed w1 [Fault.ioError])).1).2 = .ok (some [20])
+        ∧ (tb.get [2] (FT.armed w1 [Fault.short 7])).2 = .err .corruption := by
+  obtain ⟨t, fv, tb, it, w1, h⟩ := FT.witness_exists
+  have e3 := FT.withOpened_of h.hnew h.hit FT.witness_scan3_eval
+  have e7 := FT.withOpened_of h.hnew h.hit FT.witness_scan_eval
+  have es := FT.withOpened_of h.hnew h.hit FT.witness_seek_eval
+  have eg := FT.withOpened_of h.hnew h.hit FT.witness_get_eval
+  have eh := FT.withOpened_of h.hnew h.hit FT.witness_get_short_eval
+  simp only [Bool.and_eq_true] at eg
+  exact ⟨t, fv, tb, it, w1, h, FT.runB_sound e3, FT.runB_sound e7, FT.runB_sound es,
+    FT.getB_sound eg.1, FT.getB_sound eg.2, FT.getB_sound eh⟩
+
+/-- … and the general theorems applied to the instance (their hypotheses are discharged by `FT.WitnessOK`):
+    `C14_scan` under `[none, ioError]` and `C14_recovers` after any session -/
+theorem C14_instance_theorems :
+    ∃ (t : TableImg) (fv : Option Bytes) (tb : Table) (it : TableIter) (w1 : World),
+      FT.WitnessOK t fv tb it w1
+        ∧ (∃ (bs : List DBlock) (w' : World) (it' : TableIter), bs.Sublist t.blocks
+            ∧ it.run (List.replicate ((bs.flatMap (·.blk.kvs)).length + 1) IterOp.next)
+                (FT.armed w1 [Fault.none, Fault.ioError])
+              = (w', .ok (it', (bs.flatMap (·.blk.kvs)).map (fun e => IterOut.entry (some e))
+                            ++ [IterOut.entry none]))
+            ∧ (t.blocks.length - bs.length) + FT.faultCount w' ≤ 1)
+        ∧ (∀ evs : List FT.Ev, ∀ k, ∃ w3,
+            tb.get k { (FT.run tb evs { w := FT.armed w1 [Fault.none, Fault.ioError], its := [it] }).w
+                        with sched := [] }
+              = (w3, .ok (Spec.lookup defaultCmp t.entries k))) := by
+  obtain ⟨t, fv, tb, it, w1, h⟩ := FT.witness_exists
+  obtain ⟨hf, hcoh, hcv, _⟩ := h.world [Fault.none, Fault.ioError]
+  refine ⟨t, fv, tb, it, w1, h, ?_, ?_⟩
+  · obtain ⟨bs, w', it', hsub, _, _, hrun, _, _, _, _, hcount⟩ :=
+      C14_scan defaultCmp defaultCmp_lawful noFilterPolicy t h.wf fv tb h.opened h.noShort _ hf hcoh hcv it h.sim
+    exact ⟨bs, w', it', hsub, hrun, hcount⟩
+  · intro evs k
+    have := C14_recovers defaultCmp defaultCmp_lawful noFilterPolicy t h.wf fv tb h.opened h.sound h.fwf
+      h.noShort [it] (by intro x hx; rw [List.mem_singleton.mp hx]; exact ⟨h.iterOK, h.itab⟩) evs _ hf hcoh hcv
+    exact (this _ rfl).2.1 k
+
+/-! ### sessions whose iterators simulate positions -/
+
+section
+variable (cmp : Cmp) (hc : cmp.Lawful) (p : FilterPolicy) (t : TableImg) (hwf : t.WF cmp)
+  (fv : Option Bytes) (tb : Table) (hop : Opened tb t cmp p fv)
+  (hsound : ∀ fb, fv = some fb → FilterSound p t fb)
+  (hfwf : ∀ fb, fv = some fb → FilterBlockReader.isWellFormed fb = true) (hns : NoShortCollision t)
+include hc hwf hop hsound hfwf hns
+
+/-- C14 (sessions, with simulation): like `C14_session`, but every iterator of the family simulates a
+    position (`∃ pos, SimT t tb it pos`) before — fresh iterators and reset ones do — and after ANY session
+    under ANY fault schedules: `FT.SessSim` is an invariant of `FT.run`. Hence `valid` / `current` /
+    `current_key` of every iterator, at every moment, show a stored entry or nothing. -/
+theorem C14_session_sim (its0 : List TableIter) (hits : ∀ it ∈ its0, ∃ pos, SimT t tb it pos)
+    (evs : List FT.Ev) (w0 : World) (hf : FileOK w0 tb.file t.img) (hcoh : Coherent w0 tb.cacheId t)
+    (hcv : CacheValid w0) :
+    let s1 := FT.run tb evs { w := w0, its := its0 }
+    FT.SessSim cmp tb t s1
+      ∧ (∀ it ∈ s1.its, ∃ pos, SimT t tb it pos)
+      ∧ (∀ e ∈ s1.gets, e.2 = .ok (Spec.lookup cmp t.entries e.1) ∨ ∃ c, e.2 = .err c)
+      ∧ s1.failedCalls = 0
+      ∧ FileOK s1.w tb.file t.img ∧ Coherent s1.w tb.cacheId t ∧ CacheValid s1.w := by
+  have h := FT.run_sim cmp hc p t hwf fv tb hop hsound hfwf hns evs { w := w0, its := its0 }
+    ⟨⟨hf, hcoh, hcv⟩, hits, (by intro e he; cases he), rfl⟩
+  exact ⟨h, h.its, h.gets, h.calls, h.inv.1, h.inv.2.1, h.inv.2.2⟩
+
+/-- C14 (sessions, every call): in ANY state reached by a session (`FT.SessSim`, kept by `FT.run`:
+    `C14_session_sim`), a call `op` on the `i`-th iterator succeeds, the session step stores the new
+    iterator, and the call is described by `FT.CallOutcome`: `FT.StepOutcome` for `advance` / `next` /
+    `seek_to_first`, `FT.SeekOutcome` for `seek`, `FT.PrevOutcome` for `prev` from a valid position — i.e. the
+    per-call theorems `C14_next_under_faults` / `C14_seek_under_faults` / `C14_prev_under_faults` hold at
+    every step of every session -/
+theorem C14_session_call (s : FT.Sess) (hs : FT.SessSim cmp tb t s) (i : Nat) (it : TableIter)
+    (hi : s.its[i]? = some it) (op : IterOp) :
+    ∃ pos w' it' out pos', SimT t tb it pos ∧ it.call op s.w = (w', .ok (it', out))
+      ∧ SimT t tb it' pos' ∧ FT.Inv tb t w' ∧ FT.CallOutcome cmp tb t pos op s.w w' pos' out
+      ∧ FT.step tb s (.call i op) = { s with w := w', its := s.its.set i it' }
+      ∧ FT.SessSim cmp tb t (FT.step tb s (.call i op)) :=
+  let ⟨pos, w', it', out, pos', a, b, c, d, e, f⟩ :=
+    FT.session_call cmp hc p t hwf fv tb hop hsound hfwf hns s hs i it hi op
+  ⟨pos, w', it', out, pos', a, b, c, d, e, f,
+    FT.step_sim cmp hc p t hwf fv tb hop hsound hfwf hns s hs (.call i op)⟩
+
+end
+
 end Sst
 
 #print axioms Sst.C14_read_block
@@ -416,3 +569,9 @@ end Sst
 #print axioms Sst.C14_next_under_faults
 #print axioms Sst.C14_prev_under_faults
 #print axioms Sst.C14_call_keeps_sim
+#print axioms Sst.C14_noShortCollision_checker
+#print axioms Sst.C14_nonvacuous
+#print axioms Sst.C14_instance
+#print axioms Sst.C14_instance_theorems
+#print axioms Sst.C14_session_sim
+#print axioms Sst.C14_session_call
